@@ -56,6 +56,13 @@ SUB = {
 
 REGENERATED = {("core_maths", 4), ("verif_cube", 4)}
 
+FOUR_PARAM_LINES = [
+    (["+", "a0", "*", "a1", "-", "a2", "a3"], "a0 + a1*(a2 - a3)"),
+    (["+", "*", "a0", "x", "+", "a1", "*", "a2", "pow", "x", "a3"], "a0*x + a1 + a2*pow(x,a3)"),
+    (["*", "a3", "+", "x", "*", "a2", "+", "a1", "a0"], "a3*(x + a2*(a1 + a0))"),
+    (["-", "/", "a0", "a3", "*", "a1", "inv", "a2"], "a0/a3 - a1/a2"),
+]
+
 
 def coq_str(s):
     return '"' + s.replace('"', '""') + '"'
@@ -100,10 +107,22 @@ def correspondence(ctx):
     shutil.copytree(ctx.scratch, dst, ignore=shutil.ignore_patterns("function_library", "__pycache__"))
     cases = []
     dist = {}
-    for runname, n, maxlines in libs(ctx):
-        basis = SHIPPED.get(runname) or SUB[runname]
-        extra = {"ESR_VERIF_BASIS": json.dumps(basis)} if runname.startswith("verif_") else None
-        rc, out, err = esrv.run_py(dst, GEN, [runname, str(n)], extra=extra, timeout=3000)
+    for runname, n, maxlines in libs(ctx) + [("synthetic_4param", 7, 100)]:
+        if runname == "synthetic_4param":
+            # hand-written lines with four distinct parameters (generated libraries reach them only at complexity 7): both readers
+            # must bind every parameter name to its own symbol
+            basis = SHIPPED["core_maths"]
+            libdir = os.path.join(dst, "esr", "function_library", runname, "compl_%d" % n)
+            os.makedirs(libdir, exist_ok=True)
+            with open(os.path.join(libdir, "trees_%d.txt" % n), "w") as f:
+                f.write("".join(repr(t) + "\n" for t, _ in FOUR_PARAM_LINES))
+            with open(os.path.join(libdir, "all_equations_%d.txt" % n), "w") as f:
+                f.write("".join(e + "\n" for _, e in FOUR_PARAM_LINES))
+            rc, out, err = 0, "", ""
+        else:
+            basis = SHIPPED.get(runname) or SUB[runname]
+            extra = {"ESR_VERIF_BASIS": json.dumps(basis)} if runname.startswith("verif_") else None
+            rc, out, err = esrv.run_py(dst, GEN, [runname, str(n)], extra=extra, timeout=3000)
         if rc == 0 and (runname, n) in REGENERATED:
             # a library regenerated in place (the usual way of re-running ESR) must still be line-aligned
             rc, out, err = esrv.run_py(dst, GEN, [runname, str(n)], extra=extra, timeout=3000)
